@@ -217,7 +217,12 @@ def call(X, st, name, args, kwargs):
             if isinstance(a, VObj) and isinstance(st.obj(a), CList):
                 items = list(st.obj(a).items)
                 cl = CList(items)
+                if not items:
+                    return [Res(st, new_arr(st, z3.IntVal(0), lambda i: VFl(Fl.const(0.0)), "float"))]
                 return [Res(st, new_arr(st, z3.IntVal(len(items)), lambda i: X.B.clist_get(cl, i), "float"))]
+            if isinstance(a, VObj) and isinstance(st.obj(a), core.LList):
+                ll = st.obj(a)
+                return [Res(st, new_arr(st, ll.length(), lambda i, ll=ll: ll.get(i), "float"))]
             raise Unsupported("np.array of a non-array")
         o = read(st, a)
         if dt is None or (dts and dts.endswith("float64")):
@@ -270,11 +275,115 @@ def call(X, st, name, args, kwargs):
         n1, ea = elementwise(X, st, args[1], args[1], lambda x, y: x, "float")
         n2, eb = elementwise(X, st, args[2], args[2], lambda x, y: x, "float")
         return [Res(st, new_arr(st, c.length, lambda i, c=c: vite(c.elem(i).t, ea(i), eb(i)), "float"))]
+    if name in ("isclose", "round", "linspace", "arange", "concatenate", "diff", "finfo"):
+        return accessor_call(X, st, name, args, kwargs)
     if name in ("histogram", "unique", "average"):
         # reductions with data-dependent structure: this *path* is outside the proof (bounded stand-in)
         st.events.append(("np-out-of-reach", name))
         return X.raise_(st, "HGV_PathOutOfReach", "np." + name)
     raise Unsupported(f"numpy.{name}")
+
+
+ISCLOSE_ATOL, ISCLOSE_RTOL = z3.RealVal("1/100000000"), z3.RealVal("1/100000")
+
+
+def fl_isclose(a, b):
+    """numpy.isclose(a, b) with the default tolerances, over the reals (A-REAL):
+    |a - b| <= atol + rtol * |b| for finite operands, equality for infinities, False with a NaN"""
+    absb = z3.If(b.r >= 0, b.r, -b.r)
+    d = a.r - b.r
+    absd = z3.If(d >= 0, d, -d)
+    return z3.Or(z3.And(a.isfin(), b.isfin(), absd <= ISCLOSE_ATOL + ISCLOSE_RTOL * absb), z3.And(a.pinf, b.pinf), z3.And(a.ninf, b.ninf))
+
+
+def seq_parts(X, st, v):
+    """(length term, index -> V) of an array, list or tuple value"""
+    if is_arr(st, v):
+        o = read(st, v)
+        return o.length, o.elem
+    so = X.B.seqobj(st, v)
+    if so is None:
+        raise Unsupported(f"sequence expected, got {v!r}")
+    if isinstance(so, CList):
+        return z3.IntVal(len(so.items)), (lambda i, so=so: X.B.clist_get(so, i))
+    return so.length(), so.get
+
+
+def accessor_call(X, st, name, args, kwargs):
+    """numpy functions used by the read accessors (bin_edges, bin_centers, ...): assumed contracts over A-REAL"""
+    if name == "isclose":
+        fa, fb = fl_of(X, args[0]), fl_of(X, args[1])
+        if len(args) > 2 or kwargs:
+            raise Unsupported("np.isclose with explicit tolerances")
+        return [Res(st, VBool(fl_isclose(fa, fb)))]
+    if name == "round":
+        # round half to even: an integer within 1/2 of the argument (which of the two at a tie is unspecified here)
+        f = fl_of(X, args[0])
+        if len(args) > 1:
+            raise Unsupported("np.round with decimals")
+        k = st.fresh("npround", z3.IntSort())
+        st.add(z3.Implies(f.isfin(), z3.And(z3.ToReal(k) - z3.RealVal("1/2") <= f.r, f.r <= z3.ToReal(k) + z3.RealVal("1/2"))))
+        return [Res(st, VFl(Fl(f.nan, f.pinf, f.ninf, z3.ToReal(k)), "npfloat"))]
+    if name == "linspace":
+        a, b, n = fl_of(X, args[0]), fl_of(X, args[1]), args[2]
+        if not isinstance(n, VInt):
+            raise Unsupported("np.linspace num")
+        out = []
+        for s, neg in X.branch(st, n.t < 0):
+            if neg:
+                out.extend(X.raise_(s, "ValueError", "np.linspace: negative number of samples"))
+                continue
+            # element i = a + i * (b - a) / (n - 1); the last element is exactly b (numpy sets it)
+            span = b.sub(a)
+
+            def el(i, a=a, b=b, n=n, span=span):
+                step = np_div(span, Fl.fin(z3.ToReal(n.t - 1)))
+                v = a.add(Fl.fin(z3.ToReal(i)).mul(step))
+                v = Fl.ite(i == 0, a, Fl.ite(i == n.t - 1, b, v))
+                return VFl(v, "npfloat")
+
+            out.append(Res(s, new_arr(s, n.t, el, "float")))
+        return out
+    if name == "arange":
+        if len(args) != 3:
+            raise Unsupported("np.arange form")
+        a, b, step = (fl_of(X, x) for x in args)
+        # length = ceil((stop - start) / step) for finite operands and step > 0 (otherwise out of reach)
+        L = st.fresh("arange.len", z3.IntSort())
+        q = npquot(b.r - a.r, step.r)
+        st.add(z3.Implies(z3.And(a.isfin(), b.isfin(), step.isfin(), step.r > 0), z3.And(L >= 0, z3.Or(z3.And(q <= 0, L == 0), z3.And(q > 0, z3.ToReal(L) - 1 < q, q <= z3.ToReal(L))))))
+        st.events.append(("np-arange", (a, b, step)))
+        return [Res(st, new_arr(st, L, lambda i, a=a, step=step: VFl(a.add(Fl.fin(z3.ToReal(i)).mul(step)), "npfloat"), "float"))]
+    if name == "concatenate":
+        parts = X.B.as_sequence(st, args[0])
+        if parts is None or len(parts) != 2:
+            raise Unsupported("np.concatenate form")
+        (n1, e1), (n2, e2) = seq_parts(X, st, parts[0]), seq_parts(X, st, parts[1])
+        return [Res(st, new_arr(st, z3.simplify(n1 + n2), lambda i, n1=n1, e1=e1, e2=e2: vite(i < n1, e1(i), e2(i - n1)), "float"))]
+    if name == "diff":
+        n, e = seq_parts(X, st, args[0])
+        m = z3.simplify(z3.If(n > 0, n - 1, 0))
+        return [Res(st, new_arr(st, m, lambda i, e=e: VFl(fl_of(X, e(i + 1)).sub(fl_of(X, e(i))), "npfloat"), "float"))]
+    if name == "finfo":
+        return [Res(st, core.VBuiltin("np.finfo.obj", None))]
+    raise Unsupported(f"numpy.{name}")
+
+
+def getslice(X, st, a, lo, hi):
+    """a[lo:hi] of an array: a new array (a view in numpy; the accessors never write through it)"""
+    o = read(st, a)
+    n = o.length
+
+    def norm(b, default):
+        if isinstance(b, VNone):
+            return default
+        if not isinstance(b, VInt):
+            raise Unsupported("array slice bound")
+        t = z3.If(b.t < 0, b.t + n, b.t)
+        return z3.If(t < 0, 0, z3.If(t > n, n, t))
+
+    l, h = z3.simplify(norm(lo, z3.IntVal(0))), z3.simplify(norm(hi, n))
+    return [Res(st, new_arr(st, z3.simplify(z3.If(h > l, h - l, 0)), lambda i, o=o, l=l: o.elem(i + l), o.dtype))]
 
 
 def materialise(X, st, v):
